@@ -248,6 +248,8 @@ def gen_register(rng: random.Random, n_min=1, n_max=5, dim3_p=0.2, int_ids_p=0.0
     if int_ids_p and rng.random() < int_ids_p:
         # integer qubit ids 0..n-1, what Register.square(n) etc. produce by default
         ids = list(range(n))
+        if rng.random() < 0.5:
+            rng.shuffle(ids)  # an id is not the atom's position in the register
     coords = []
     # atoms on a jittered grid, spacing >= 5um so every device accepts them
     cells = rng.sample(range(16), n)
